@@ -164,7 +164,32 @@ def shape_tables(meths):
     return rows_fn, rows_tr
 
 
+# public front ends that take `direction` and must hand it on unchanged
+WRAPPERS = [('abel/linbasex.py', 'linbasex_transform', 'linbasex_transform_full'),
+            ('abel/dasch.py', 'two_point_transform', '_dasch_transform'),
+            ('abel/dasch.py', 'three_point_transform', '_dasch_transform'),
+            ('abel/dasch.py', 'onion_peeling_transform', '_dasch_transform')]
+
+
+def check_wrappers():
+    for path, name, target in WRAPPERS:
+        f = find_function(path, name)
+        if 'direction' not in [a.arg for a in f.args.args]:
+            raise Unsupported('%s: %s has no direction parameter' % (path, name))
+        ok = False
+        for n in ast.walk(f):
+            if isinstance(n, ast.Call) and ast.unparse(n.func).split('.')[-1] == target:
+                kws = {k.arg: ast.unparse(k.value) for k in n.keywords}
+                if kws.get('direction') == 'direction':
+                    ok = True
+                else:
+                    raise Unsupported('%s: %s calls %s without direction=direction' % (path, name, target))
+        if not ok:
+            raise Unsupported('%s: %s does not call %s' % (path, name, target))
+
+
 def generate():
+    check_wrappers()
     rows_fn, rows_tr = [], []
     for coq, path, name in FUNCS:
         gs = fn_guards(find_function(path, name))
